@@ -27,43 +27,29 @@ Theorem C14_model_matches_table : model_matches_table = true.
 Proof. exact model_matches_table_holds. Qed.
 Print Assumptions C14_model_matches_table.
 
-(* FULL statement reset_complete: every mutable RunState field is certainly assigned by resetCore or
-   setExecuteConfig, every Variable field by resetVars, the random state by ResetRand, every ConfigSet field by
-   setExecuteConfig or the prologue, constants are never written again.  It is FALSE for the pinned tree: *)
-Theorem C14_reset_complete_refuted : ~ reset_complete.
-Proof. exact reset_complete_refuted. Qed.
-Print Assumptions C14_reset_complete_refuted.
+(* reset_complete: every mutable RunState field is certainly assigned by resetCore or setExecuteConfig, every
+   Variable field by resetVars, the random state by ResetRand, every ConfigSet field by setExecuteConfig or the
+   prologue, constants are never written again, and no field is unclassified.  (It was false for the pinned
+   tree: fieldNames, fieldIndexes, reparseCSV -- F-C14-1, F-C14-2, repaired in resetCore.) *)
+Theorem C14_reset_complete : reset_complete.
+Proof. exact reset_complete_holds. Qed.
+Print Assumptions C14_reset_complete.
 
-(* ... exactly three fields are written during a run and reset nowhere (F-C14-1: fieldNames, fieldIndexes;
-   F-C14-2: reparseCSV) *)
-Theorem C14_unreset_fields_exact : unreset_fields = ["fieldNames"; "fieldIndexes"; "reparseCSV"].
-Proof. exact unreset_fields_exact. Qed.
-Print Assumptions C14_unreset_fields_exact.
-
-Theorem C14_reset_complete_partial : reset_complete_except leaking_fields.
-Proof. exact reset_complete_partial. Qed.
-Print Assumptions C14_reset_complete_partial.
+(* the three formerly leaking fields are still written during a run, and resetCore now assigns them *)
+Theorem C14_formerly_leaking_reset :
+  forallb (fun f => mem f may_run && mem f (must_fields fn_resetCore)) ["fieldNames"; "fieldIndexes"; "reparseCSV"] = true.
+Proof. exact formerly_leaking_reset. Qed.
+Print Assumptions C14_formerly_leaking_reset.
 
 (* ---- layer (b): all histories ---- *)
 
-(* FULL statement: for every reachable state g, whether or not ResetVars (rv) / ResetRand (rr) are called, and
-   every Config, Execute/ExecuteContext on the reused interpreter and on a new one (into which the not-reset
-   variables / random state of g were copied) get the same verdict from setExecuteConfig and enter executeAll
-   agreeing on ALL observable fields (everything but caches and scratch).  FALSE for the pinned tree: *)
-Theorem C14_reuse_eq_fresh_refuted : ~ reuse_eq_fresh_full.
-Proof. exact reuse_eq_fresh_refuted. Qed.
-Print Assumptions C14_reuse_eq_fresh_refuted.
-
-(* ... also with the header names excluded (reparseCSV alone breaks it) *)
-Theorem C14_reuse_eq_fresh_refuted_reparseCSV :
-  ~ reuse_statement (fun en => filter (fun f => negb (mem f ["fieldNames"; "fieldIndexes"])) (obs_fields en)).
-Proof. exact reuse_eq_fresh_refuted_reparseCSV. Qed.
-Print Assumptions C14_reuse_eq_fresh_refuted_reparseCSV.
-
-(* PARTIAL (guard: the three leaking fields are not observed): the statement holds for every history. *)
-Theorem C14_reuse_eq_fresh_partial : reuse_statement obs_fields_partial.
-Proof. exact reuse_eq_fresh_partial. Qed.
-Print Assumptions C14_reuse_eq_fresh_partial.
+(* reuse_eq_fresh, FULL statement: for every reachable state g, whether or not ResetVars (rv) / ResetRand (rr)
+   are called, and every Config, Execute/ExecuteContext on the reused interpreter and on a new one (into which
+   the not-reset variables / random state of g were copied) get the same verdict from setExecuteConfig and
+   enter executeAll agreeing on ALL observable fields (everything but caches and scratch). *)
+Theorem C14_reuse_eq_fresh : reuse_eq_fresh_full.
+Proof. exact reuse_eq_fresh. Qed.
+Print Assumptions C14_reuse_eq_fresh.
 
 (* after ResetVars and ResetRand: the same verdict and the same observable state as New + Execute *)
 Theorem C14_reuse_eq_fresh_after_resets :
@@ -71,7 +57,7 @@ Theorem C14_reuse_eq_fresh_after_resets :
   forall g en c, reachable sv e pc F I run g -> c_funcs c = F ->
     let r := m_prepare sv e en c (m_resetVars (m_resetRand e g)) in
     let f := m_prepare sv e en c (m_newInterp e pc) in
-    snd r = snd f /\ (snd r = None -> agree (obs_fields_partial en) (fst r) (fst f)).
+    snd r = snd f /\ (snd r = None -> agree (obs_fields en) (fst r) (fst f)).
 Proof. exact reuse_eq_fresh_after_resets. Qed.
 Print Assumptions C14_reuse_eq_fresh_after_resets.
 
@@ -79,7 +65,7 @@ Print Assumptions C14_reuse_eq_fresh_after_resets.
 Theorem C14_same_outcome :
   forall sv e pc F I run, hyps sv I run ->
   forall (O : Type) (outcome : state -> O) rv rr g en c,
-    (forall s1 s2, agree (obs_fields_partial en) s1 s2 -> outcome s1 = outcome s2) ->
+    (forall s1 s2, agree (obs_fields en) s1 s2 -> outcome s1 = outcome s2) ->
     reachable sv e pc F I run g -> c_funcs c = F ->
     snd (m_prepare sv e en c (reused e rv rr g)) = None ->
     outcome (fst (m_prepare sv e en c (reused e rv rr g))) =
@@ -111,15 +97,18 @@ Print Assumptions C14_reachable_invariant.
 Example C14_ex_hyps : hyps sv_id unit run_header.
 Proof. exact hyps_example. Qed.
 
-(* the observable fields the partial theorem speaks about: 63 of the 77 struct fields under Execute *)
-Example C14_ex_obs : length (obs_fields_partial EExec) = 63%nat /\ length all_fields = 77%nat /\
-                     length (obs_fields_partial (ECtx true VNil VNil)) = 66%nat.
+(* the observable fields the theorem speaks about: 66 of the 77 struct fields under Execute, 69 under
+   ExecuteContext (the other 8 are caches and scratch) *)
+Example C14_ex_obs : length (obs_fields EExec) = 66%nat /\ length all_fields = 77%nat /\
+                     length (obs_fields (ECtx true VNil VNil)) = 69%nat.
 Proof. vm_compute. repeat split; reflexivity. Qed.
 
-(* the witness of the refutation: after a header run, the prepared reused interpreter still has the names *)
-Example C14_ex_witness :
+(* the history that refuted the statement before the repair: a run that read a CSV header and left reparseCSV
+   set; Execute's preparation now clears both, and the model predicts no differing observable field *)
+Example C14_ex_header_run_is_reset :
   let g := run_header tt (fst (m_prepare sv_id env0 EExec config0 (fresh env0 pc0))) in
-  fst (m_prepare sv_id env0 EExec config0 (m_resetVars (m_resetRand env0 g))) "fieldNames" = VL [VS [97]; VS [98]] /\
-  fst (m_prepare sv_id env0 EExec config0 (fresh env0 pc0)) "fieldNames" = VNil /\
-  predict_diff sv_id env0 pc0 EExec config0 true true g = PDiff ["fieldNames"; "reparseCSV"].
-Proof. vm_compute. repeat split; reflexivity. Qed.
+  g "fieldNames" = VL [VS [97]; VS [98]] /\ g "reparseCSV" = VB true /\
+  fst (m_prepare sv_id env0 EExec config0 g) "fieldNames" = VNil /\
+  fst (m_prepare sv_id env0 EExec config0 g) "reparseCSV" = VB false /\
+  predict_diff sv_id env0 pc0 EExec config0 false false g = PDiff [].
+Proof. exact header_run_is_reset. Qed.
